@@ -323,3 +323,59 @@ PROPS["C13"] = {
                 "to_urlquery/from_urlquery/to_url/from_url/to_xmlentities/_to_csv/_to_json/to_jsonl: exploration does not finish (map keys / replacers over symbolic text, FP-heavy paths): not claimed",
                 "everything behind a stub"],
 }
+
+
+PROPS["C10"] = {
+    "level": "model_checking",
+    "explanation": "the hex and ASCII column writers of the dump: every byte written appears exactly once in the cell (row, column) its offset selects, padding cells blank, separators as the layout requires, for every line width, start offset and split of the data over Write calls; the per-byte renderings Pair and SafeASCII for all 256 bytes; the two's complement and zigzag helpers used when displaying values",
+    "wall_quick": 600, "wall_thorough": 3600,
+    "harnesses": [
+        {"entry": "internal/hexpairwriter.VerifHexPairWriter", "group": "hexw", "clause": "hex column layout", "bounds": {"width": "1..4", "start": "0..width-1", "bytes": "0..2*width+1", "writes": "3 chunks at every split"}},
+        {"entry": "internal/hexpairwriter.VerifHexPairWriterWide", "group": "hexw", "tier": "thorough", "clause": "hex column layout, widths 1..16", "bounds": {"width": "1..16"}},
+        {"entry": "internal/hexpairwriter.VerifPair", "clause": "Pair(c) = two lower-case hex digits, all 256 bytes", "bounds": {}},
+        {"entry": "internal/asciiwriter.VerifASCIIWriter", "group": "asciiw", "clause": "ASCII column layout", "bounds": {"width": "1..5"}},
+        {"entry": "internal/asciiwriter.VerifASCIIWriterWide", "group": "asciiw", "tier": "thorough", "clause": "ASCII column layout, widths 1..16", "bounds": {"width": "1..16"}},
+        {"entry": "internal/asciiwriter.VerifSafeASCII", "clause": "SafeASCII(c): printable itself, else a dot; all 256 bytes", "bounds": {}},
+        {"entry": "internal/mathx.VerifTwosComplementZigZag", "clause": "TwosComplement for widths 1..64 and ZigZag", "bounds": {}},
+    ],
+    "assumptions": ["the layout harnesses use a one/two character identity rendering per byte (the writers take the rendering as a parameter; production passes Pair / SafeASCII, checked on their own)"],
+    "outside": ["dump() address arithmetic, columnwriter, colour escapes, tree column text: not reached (fmt/columnwriter heavy)", "number formatting (strconv) and DigitsInBase (float log)", "colorjson"],
+}
+
+PROPS["C16"] = {
+    "level": "model_checking",
+    "explanation": "msgpack and cbor: the real decoders are run through decode.Decode on symbolic inputs and the resulting tree is compared with an independent reference decoder written from the specification in the harness: wire type symbol, integer/float/bool/nil value, payload byte range, container shape, error iff truncated/invalid, trailing bytes as a gap",
+    "wall_quick": 1200, "wall_thorough": 7200,
+    "harnesses": [
+        {"entry": "format/msgpack.VerifMsgpack", "group": "msgpack", "clause": "msgpack: all 37 wire types, containers up to depth 2 with up to 2 elements, payloads up to 3 bytes", "bounds": {"input_bytes": "0..5"}},
+        {"entry": "format/msgpack.VerifMsgpackLong", "group": "msgpack", "tier": "thorough", "clause": "msgpack, longer inputs", "bounds": {"input_bytes": "0..8"}},
+        {"entry": "format/cbor.VerifCborScalar", "clause": "cbor: integers in all count forms, false/true/null, float16/32/64, definite byte/text strings; 64-bit declared lengths", "bounds": {"input_bytes": "0..10", "payload": "<= 3 bytes"}},
+        {"entry": "format/cbor.VerifCborArray", "clause": "cbor: definite and indefinite arrays of one-byte integers", "bounds": {"input_bytes": "1..4"}},
+        {"entry": "format/cbor.VerifCborIndefiniteLong", "clause": "cbor: indefinite array of 29..34 elements keeps all elements", "bounds": {"elements": "29..34"}},
+    ],
+    "assumptions": ["text payloads: byte range and length only (UTF-8 decoding stubbed as identity)"],
+    "outside": ["the jq reducers _<format>_torepr (jq text)", "bson, bencode, asn1_ber value equivalence (only their crash freedom is checked, C06)", "json/yaml/toml/xml/csv (third-party parsers): not applicable", "cbor maps, tags, indefinite strings; simple values other than false/true/null (not decoded by fq: documented TODO)"],
+}
+
+PROPS["C06"] = {
+    "level": "model_checking",
+    "explanation": "for an explicit list of decoders: decode.Decode over N fully symbolic bytes, forced and unforced; every Go runtime check on every path is a solver query and a panic escaping Decode (through the real recoverfn.Run) is a violation",
+    "wall_quick": 1500, "wall_thorough": 10800, "split_max": 300,
+    "harnesses": [
+        {"entry": "format/msgpack.VerifNoCrash", "group": "nc-msgpack", "clause": "msgpack never panics", "bounds": {"input_bytes": "0..4"}},
+        {"entry": "format/msgpack.VerifNoCrashLong", "group": "nc-msgpack", "tier": "thorough", "clause": "msgpack never panics", "bounds": {"input_bytes": "0..6"}},
+        {"entry": "format/cbor.VerifNoCrash", "group": "nc-cbor", "clause": "cbor never panics", "bounds": {"input_bytes": "0..4"}},
+        {"entry": "format/cbor.VerifNoCrashLong", "group": "nc-cbor", "tier": "thorough", "clause": "cbor never panics", "bounds": {"input_bytes": "0..6"}},
+        {"entry": "format/bson.VerifNoCrash", "group": "nc-bson", "clause": "bson never panics", "bounds": {"input_bytes": "0..6"}},
+        {"entry": "format/bson.VerifNoCrashLong", "group": "nc-bson", "tier": "thorough", "clause": "bson never panics", "bounds": {"input_bytes": "0..8"}},
+        {"entry": "format/bencode.VerifNoCrash", "group": "nc-bencode", "clause": "bencode never panics", "bounds": {"input_bytes": "0..4"}},
+        {"entry": "format/bencode.VerifNoCrashLong", "group": "nc-bencode", "tier": "thorough", "clause": "bencode never panics", "bounds": {"input_bytes": "0..5"}},
+        {"entry": "format/asn1.VerifNoCrash", "group": "nc-asn1", "clause": "asn1_ber never panics", "bounds": {"input_bytes": "0..3"}},
+        {"entry": "format/asn1.VerifNoCrashLong", "group": "nc-asn1", "tier": "thorough", "clause": "asn1_ber never panics", "bounds": {"input_bytes": "0..4"}},
+        {"entry": "format/luajit.VerifNoCrash", "group": "nc-luajit", "clause": "luajit (header) never panics", "bounds": {"input_bytes": "0..8"}},
+        {"entry": "format/luajit.VerifNoCrashLong", "group": "nc-luajit", "tier": "thorough", "clause": "luajit (header) never panics", "bounds": {"input_bytes": "0..10"}},
+        {"entry": "format/luajit.VerifNoCrashBCIns", "clause": "one luajit bytecode instruction entered directly, any opcode byte", "bounds": {"input_bytes": "0..4"}},
+    ],
+    "assumptions": ["nested format groups are empty (the harness bypasses the registry): only the decoder's own code is covered", "text decoding stubbed as identity"],
+    "outside": ["all other registered formats (about 125 of 132), the probe, inputs longer than the stated N: outside the claim"],
+}
